@@ -10,6 +10,24 @@ STANDING_ASSUMPTIONS = [
 ]
 
 PROPERTIES = {
+    'C01': {
+        'units': ['utf8', 'escape', 'lex', 'hexread', 'tagsjson', 'event_parse', 'event'],
+        'kani': ['leaf'], 'kani_quick': ['leaf'],
+        'sample_functions': ['read_u64', 'read_kind', 'read_id', 'next_code_point', 'encode_utf8', 'parse_json_event'],
+        'not_decided': ['stage 3/4 of DESIGN.md C01: the entry-point contract `Ok ==> jevent(input) == event_view(output)` and its converse (completeness) are not yet stated; what is proved is every leaf against its grammar-level spec (integers: Ok iff the digit run fits, value equal, never wrapped; hex members: exactly 64/128 hex digits decoded; UTF-8 encode/decode against RFC 3629; json_unescape totality) and the parser skeleton (consumed length, length field, padding)'],
+    },
+    'C02': {
+        'units': ['utf8', 'escape', 'event', 'event_parse'],
+        'kani': ['leaf'], 'kani_quick': ['leaf'],
+        'sample_functions': ['json_escape', 'Event::from_parts', 'encode_utf8'],
+        'not_decided': ['Event::as_json / Tags::as_json == event_json(view) and the re-parse lemma are not yet under contract; proved: json_escape == the NIP-01 escape function for every escapable string, from_parts == canonical packing whatever the buffer held, JSON path zeroes the padding bytes'],
+    },
+    'C08': {
+        'units': ['utf8', 'escape'],
+        'kani': ['leaf'], 'kani_quick': ['leaf'],
+        'sample_functions': ['json_escape', 'is_safe_char'],
+        'not_decided': ['Event::verify / OwnedEvent::sign_new: the composition of the canonical string [0,pubkey,created_at,kind,tags,content] (format!, secp256k1 types) is not yet under contract; SHA-256 / BIP-340 are cryptographic assumptions no verifier here discharges'],
+    },
     'C20': {
         'units': [],
         'kani': ['hll', 'hll_slow'],
